@@ -241,8 +241,13 @@ def coerce_argument_values(
             if isinstance(arg.value, _ast.Variable):
                 varname = arg.value.name.value
                 if varname in variables:
-                    if variables[varname] is None and isinstance(
-                        arg_type, NonNullType
+                    # Directive arguments are left as is: they are coerced
+                    # while collecting fields where an error could not be
+                    # reported as a field error.
+                    if (
+                        variables[varname] is None
+                        and isinstance(arg_type, NonNullType)
+                        and isinstance(definition, Field)
                     ):
                         raise CoercionError(
                             'Argument "%s" of non-null type "%s" was provided the '
